@@ -450,6 +450,39 @@ Theorem c01_failed_index_save_then_retry_as_built : forall (d d1 : dstate) (f : 
 Proof. exact failed_save_then_retry_as_built. Qed.
 Print Assumptions c01_failed_index_save_then_retry_as_built.
 
+(* the micro-step program of the failed call (lock, new id, log append of the seq-0 frame, sidecar, broadcast, in-memory index
+   insert, `save_index(..)?` fails: unlock - the counter is never set), executed on EVERY store that satisfies the store
+   invariant: the invariant holds again, so c01_valid_all_schedules / c01_restart apply to whatever runs on that store next *)
+Theorem c01_store_invariant_after_failed_index_save : forall (st : state) (ar : list N),
+  SInv st -> s_mu st = None -> SInv (exec (create_save_failed ar) st).
+Proof. exact sinv_after_create_save_failed. Qed.
+Print Assumptions c01_store_invariant_after_failed_index_save.
+
+(* ensure_default with index.json unwritable on EVERY store that knows no thread of its workspace (neither the in-memory index
+   nor the log): Err is answered, exactly one frame is logged and the log is valid; the retry as built answers that very
+   thread from the in-memory index and appends nothing, a restarted store with ANY index file and in-memory index appends
+   nothing either; re-creating the same id makes the log invalid *)
+Theorem c01_ensure_default_failed_index_save : forall d : dstate,
+  SInv (d_st d) -> s_mu (d_st d) = None ->
+  ws_lookup (ix_ws (d_mem d)) (d_ws d) = None -> find_default (d_ws d) (s_log (d_st d)) = None ->
+  snd (ensure_sf d) = None
+  /\ s_log (d_st (fst (ensure_sf d))) = s_log (d_st d) ++ [created_frame (d_st d) [d_ws d]]
+  /\ Valid (s_log (d_st (fst (ensure_sf d))))
+  /\ SInv (d_st (fst (ensure_sf d)))
+  /\ s_log (d_st (fst (ensure false (fst (ensure_sf d))))) = s_log (d_st (fst (ensure_sf d)))
+  /\ snd (ensure false (fst (ensure_sf d))) = Some (s_fresh (d_st d))
+  /\ (forall file mem, s_log (d_st (fst (ensure false (reopen {| d_st := d_st (fst (ensure_sf d)); d_ws := d_ws d; d_file := file; d_mem := mem |} (d_ws d))))) = s_log (d_st (fst (ensure_sf d))))
+  /\ validate (s_log (retry_same_id (d_st (fst (ensure_sf d))) (s_fresh (d_st d)) (d_ws d))) = false.
+Proof. exact ensure_default_failed_index_save. Qed.
+Print Assumptions c01_ensure_default_failed_index_save.
+
+(* branch / handoff whose child's creation cannot save the index, on every store: one frame (the child's seq 0) is logged *)
+Theorem c01_lineage_failed_index_save_log : forall (st : state) (c : N) (ar : list N),
+  s_mu st = None ->
+  s_log (exec ([MTarget c; MRead] ++ create_save_failed ar) st) = s_log st ++ [created_frame st ar].
+Proof. exact exec_lineage_save_failed. Qed.
+Print Assumptions c01_lineage_failed_index_save_log.
+
 (* REFUTED for a retry that creates the SAME id again (the seeded change C01-10): for EVERY such state the log is invalid
    from then on *)
 Theorem c01_retry_same_id_after_logged_frame_invalid : forall (d d1 : dstate) (f : frame),
